@@ -308,6 +308,9 @@ func copyCycleCount(prop string, conn int, c *Case, cs *connState, t *Transcript
 			if q == nil {
 				return nil
 			}
+			if m.K == "c" && !aborted {
+				return nil // the COPY ended regularly; a later CopyFail is a stray message
+			}
 			if m.K == "S" && aborted {
 				return nil // a Sync after the abort is answered at top level with its own ReadyForQuery
 			}
